@@ -142,9 +142,48 @@ def run_build(cli, r, texts, lib_convert, workdir, idx):
     extra = len([f for f in written if f[:-4] not in names])
     ob = {"exit": p.returncode, "n_written": len(written), "n_correct": correct, "n_extra": extra,
           "diag_len": len(p.stdout) + len(p.stderr)}
-    b = {"missing_dir": missing, "n_matching": 0 if missing else nmatch}
+    b = {"missing_dir": missing, "n_matching": 0 if missing else nmatch, "n_blocked": 0}
     shutil.rmtree(d, ignore_errors=True)
     return b, ob, {"argv": argv, "stdout": p.stdout[:300].decode("utf-8", "replace")}
+
+
+def run_build_scenario(cli, r, sc, texts, lib_convert, workdir, idx):
+    """one scenario of CliBuild.tla against the real binary: the directory is laid out as the scenario says (entries
+    [stem, ext, blocked]; blocked = the output path <stem>.svg is taken by a directory), `build` runs, and what was
+    written is compared with the model's outcome and with the library's conversions"""
+    d = os.path.join(workdir, "s%d" % idx)
+    src, outdir = os.path.join(d, "src"), os.path.join(d, "out")
+    os.makedirs(d, exist_ok=True)
+    content = {}
+    if sc["exists"]:
+        os.makedirs(src, exist_ok=True)
+        os.makedirs(outdir, exist_ok=True)
+        for j, e in enumerate(sc["entries"]):
+            t = texts[(idx + j) % len(texts)]
+            with open(os.path.join(src, e["stem"] + "." + e["ext"]), "w", encoding="utf-8") as f:
+                f.write(t)
+            if e["ext"] == "bob":
+                content[e["stem"]] = t
+                if e["blocked"]:
+                    os.makedirs(os.path.join(outdir, e["stem"] + ".svg"), exist_ok=True)
+    relative = r.random() < 0.5
+    argv = ["build", "-i", os.path.join("src" if relative else src, "*.bob"), "-o", "out" if relative else outdir]
+    p = subprocess.run([cli] + argv, stdout=subprocess.PIPE, stderr=subprocess.PIPE, timeout=120, cwd=d)
+    written = sorted(f for f in os.listdir(outdir) if os.path.isfile(os.path.join(outdir, f))) if os.path.isdir(outdir) else []
+    correct = 0
+    for f in written:
+        stem = f[:-4] if f.endswith(".svg") else None
+        if stem in content:
+            with open(os.path.join(outdir, f), "rb") as fh:
+                if fh.read() == lib_convert(content[stem], {}).encode("utf-8"):
+                    correct += 1
+    matching = [e for e in sc["entries"] if e["ext"] == "bob"]
+    ob = {"exit": p.returncode, "n_written": len(written), "n_correct": correct,
+          "n_extra": len([f for f in written if f not in sc["written"]]), "diag_len": len(p.stdout) + len(p.stderr)}
+    b = {"missing_dir": 0 if sc["exists"] else 1, "n_matching": len(matching), "n_blocked": len([e for e in matching if e["blocked"]])}
+    same = (p.returncode == sc["exit"] and written == sorted(sc["written"]))
+    shutil.rmtree(d, ignore_errors=True)
+    return b, ob, {"argv": argv, "stdout": p.stdout[:300].decode("utf-8", "replace"), "written": written}, same
 
 
 # ---------------------------------------------------------------------------------------------
